@@ -527,9 +527,11 @@ func runC14(c *core.Case) {
 	var hwmBad atomic.Value
 	var swg sync.WaitGroup
 	swg.Add(1)
+	var nodesMu sync.RWMutex // held exclusively while a node is restarted
 	go func() {
 		defer swg.Done()
 		for !stop.Load() {
+			nodesMu.RLock()
 			for i, cn := range cl.Nodes {
 				if !cn.Up || cn.Node == nil || cn.Node.Store == nil {
 					continue
@@ -543,6 +545,7 @@ func runC14(c *core.Case) {
 					samples.Add(1)
 				}
 			}
+			nodesMu.RUnlock()
 			time.Sleep(200 * time.Microsecond)
 		}
 	}()
@@ -923,8 +926,11 @@ func runC14(c *core.Case) {
 				P.w.close()
 				P.w = nil
 			}
+			nodesMu.Lock()
 			cl.Stop(0)
-			if err := cl.Start(0); err != nil || cl.WaitPrimary(0, 10*time.Second) == nil {
+			err := cl.Start(0)
+			nodesMu.Unlock()
+			if err != nil || cl.WaitPrimary(0, 10*time.Second) == nil {
 				c.Inconclusive(fmt.Sprintf("primary restart: %v", err))
 				return
 			}
